@@ -161,6 +161,19 @@ fn exec_spec(scratch_root: &Path, bin: &Path, id: usize, sp: &Spec) -> (bool, Ve
         if sp.verbose {
             cmd.arg("-v");
         }
+        // the tool runs with 2 GiB of address space, 20 s of CPU time and no terminal input: a
+        // change that makes it read an endless device or wait for input ends as "died from a signal"
+        cmd.stdin(std::process::Stdio::null());
+        unsafe {
+            use std::os::unix::process::CommandExt;
+            cmd.pre_exec(|| {
+                let mem = libc::rlimit { rlim_cur: 2 << 30, rlim_max: 2 << 30 };
+                libc::setrlimit(libc::RLIMIT_AS, &mem);
+                let cpu = libc::rlimit { rlim_cur: 20, rlim_max: 21 };
+                libc::setrlimit(libc::RLIMIT_CPU, &cpu);
+                Ok(())
+            });
+        }
         let out = match cmd.output() {
             Ok(o) => o,
             Err(e) => machinery_fail(&format!("cannot run {:?}: {}", bin, e)),
